@@ -1,12 +1,17 @@
 (* C04 -- an accepted header never depends on or consumes the bytes that follow it.
    Statements only; proofs in Proofs/V1Final.v (v1), Proofs/AutoProps.v (v2, auto). *)
 From PPP Require Import Base.Bytes Std.Utf8 Std.Text Model.V1 Model.V2 Model.Auto
-  Proofs.BytesFacts Proofs.V1Text Proofs.V1Final Proofs.V1Props Proofs.AutoProps.
+  Proofs.BytesFacts Proofs.V1Text Proofs.V1Final Proofs.V1Props Proofs.AutoProps Proofs.Extra.
 
 Theorem C04_v1 : forall x hd t, p1 x = Ok hd ->
   p1 (x ++ t) = Ok hd /\ p1 (text hd) = Ok hd /\ text hd = takeN (lenN (text hd)) x
   /\ is_suffix CRLF (text hd) = true.
 Proof. exact p1_trailer_independent. Qed.
+
+(* the text form, for valid UTF-8 (a &str always is) *)
+Theorem C04_v1s : forall s hd t, utf8_valid (s ++ t) = true -> utf8_valid s = true -> p1s s = Ok hd ->
+  p1s (s ++ t) = Ok hd /\ p1s (text hd) = Ok hd.
+Proof. exact p1s_trailer_independent. Qed.
 
 Theorem C04_v2 : forall x h t, wf_bytes (x ++ t) = true -> p2 x = Ok h ->
   p2 (x ++ t) = Ok h /\ p2 (hbytes h) = Ok h
@@ -17,5 +22,6 @@ Theorem C04_auto : forall x r t, wf_bytes (x ++ t) = true -> pa x = r -> is_ok_a
 Proof. exact pa_trailer_independent. Qed.
 
 Print Assumptions C04_v1.
+Print Assumptions C04_v1s.
 Print Assumptions C04_v2.
 Print Assumptions C04_auto.
